@@ -3,7 +3,7 @@
     Window edges (theories/WindowProofs.v): [window_first] / [window_last] (theories/Window.v) are the
     first and last segment listed by the MPD model at an instant: that is C02_timeline_is_window
     (props/C02.v), restated here. *)
-From Verif Require Import GoSem Timeline TimelineProofs Publish Window WindowProofs.
+From Verif Require Import GoSem Timeline TimelineProofs Publish Window WindowProofs Template TemplateProofs.
 From VerifGen Require Consts.
 
 Theorem C05_consts : Consts.app_defaultStartNr = 0.
@@ -77,6 +77,115 @@ Theorem C05_publish_monotone : forall r loopMS c tsbdMS atoMS now1 now2,
   mpdPublishMS r loopMS c now1 tsbdMS atoMS <= mpdPublishMS r loopMS c now2 tsbdMS atoMS.
 Proof. exact publish_monotone. Qed.
 Print Assumptions C05_publish_monotone.
+
+(** ** publishTime identifies the content.  [mpdContent] (theories/Window.v) = (start number, <S> elements). *)
+
+(** The SegmentTimeline is a function of the two edges alone ([windowEntries]: the run-length
+    encoding of [first .. last]) ... *)
+Theorem C05_timeline_by_edges : forall r loopMS, wf r loopMS -> forall c now tsbdMS atoMS,
+  startS c * 1000 <= now -> 0 <= tsbdMS -> 0 <= atoMS ->
+  generateTimelineEntries r (calcWrapTimes loopMS c now tsbdMS) atoMS
+  = windowEntries r (window_first r c atoMS now tsbdMS) (window_last r c atoMS now).
+Proof. exact timeline_eq. Qed.
+Print Assumptions C05_timeline_by_edges.
+
+(** ... so two MPDs of one configuration with the same edges have the same content and publishTime. *)
+Theorem C05_content_determined : forall r loopMS, wf r loopMS -> forall c atoMS now1 tsbd1 now2 tsbd2,
+  startS c * 1000 <= now1 -> startS c * 1000 <= now2 -> 0 <= tsbd1 -> 0 <= tsbd2 -> 0 <= atoMS ->
+  window_first r c atoMS now1 tsbd1 = window_first r c atoMS now2 tsbd2 ->
+  window_last r c atoMS now1 = window_last r c atoMS now2 ->
+  mpdContent r loopMS c now1 tsbd1 atoMS = mpdContent r loopMS c now2 tsbd2 atoMS /\
+  mpdPublishMS r loopMS c now1 tsbd1 atoMS = mpdPublishMS r loopMS c now2 tsbd2 atoMS.
+Proof. exact content_determined. Qed.
+Print Assumptions C05_content_determined.
+
+(** Hypothesis "comm": one segment duration [d] = [dms] whole milliseconds, and a time-shift buffer
+    of [q] whole segments (any availabilityTimeOffset).  Then the first edge is a function of the
+    last edge: it only moves at instants at which the last edge moves ... *)
+Theorem C05_first_follows_last : forall r loopMS, wf r loopMS -> forall d dms,
+  const_dur r d -> d * 1000 = dms * ts r -> forall c atoMS q now1 now2,
+  0 <= q -> 0 <= atoMS -> startS c * 1000 <= now1 -> startS c * 1000 <= now2 ->
+  window_last r c atoMS now1 = window_last r c atoMS now2 ->
+  window_first r c atoMS now1 (q * dms) = window_first r c atoMS now2 (q * dms).
+Proof. exact first_follows_last. Qed.
+Print Assumptions C05_first_follows_last.
+
+(** ... and two MPDs (each with at least one segment) have the same publishTime iff they have the
+    same content. *)
+Theorem C05_publish_identifies_content : forall r loopMS, wf r loopMS -> forall d dms,
+  const_dur r d -> d * 1000 = dms * ts r -> forall c atoMS q now1 now2,
+  0 <= q -> 0 <= atoMS -> startS c * 1000 <= now1 -> startS c * 1000 <= now2 ->
+  0 <= window_last r c atoMS now1 -> 0 <= window_last r c atoMS now2 ->
+  (mpdPublishMS r loopMS c now1 (q * dms) atoMS = mpdPublishMS r loopMS c now2 (q * dms) atoMS <->
+   mpdContent r loopMS c now1 (q * dms) atoMS = mpdContent r loopMS c now2 (q * dms) atoMS).
+Proof. exact publish_identifies_content. Qed.
+Print Assumptions C05_publish_identifies_content.
+
+(** Without "comm" (finding): 4 x 2 s loop, tsbd 61 s, now = 100.5 s and 101.5 s: the same
+    publishTime (100 s, newest segment 49) but the first listed segment differs (18 / 19). *)
+Theorem C05_window_refuted :
+  exists r loopMS c tsbdMS atoMS now1 now2,
+    wf r loopMS /\ 0 <= tsbdMS /\ 0 <= atoMS /\ startS c * 1000 <= now1 <= now2 /\
+    0 <= window_last r c atoMS now1 /\
+    mpdPublishMS r loopMS c now1 tsbdMS atoMS = mpdPublishMS r loopMS c now2 tsbdMS atoMS /\
+    fst (mpdContent r loopMS c now1 tsbdMS atoMS) <> fst (mpdContent r loopMS c now2 tsbdMS atoMS).
+Proof. exact window_witness. Qed.
+Print Assumptions C05_window_refuted.
+
+(** ** $Number$ template, one period: the template fields and publishTime (= start of the stream)
+    do not depend on the instant. *)
+Theorem C05_number_constant : forall r c now1 now2, numberMPD r c now1 = numberMPD r c now2.
+Proof. exact number_constant. Qed.
+Print Assumptions C05_number_constant.
+
+Theorem C05_number_fields : forall r c now,
+  numberMPD r c now = {| t_startNumber := u32 (startNr c); t_duration := templDur r;
+                         t_timescale := u32 (ts r); t_publishMS := startS c * 1000 |}.
+Proof. exact number_fields. Qed.
+
+(** ** Stop time ([liveMPDView], theories/Window.v): after the stop the MPD is static, has the duration
+    stop - start, and content and publishTime are those of the stop instant - the same for every
+    later instant; up to the stop (or without one) it is the dynamic MPD of [now]. *)
+Theorem C05_static_after_stop : forall r loopMS c stop now tsbdMS atoMS, stop * 1000 < now ->
+  liveMPDView r loopMS c (Some stop) now tsbdMS atoMS
+  = {| v_static := true; v_durS := Some (stop - startS c);
+       v_publishMS := mpdPublishMS r loopMS c (stop * 1000) tsbdMS atoMS;
+       v_content := mpdContent r loopMS c (stop * 1000) tsbdMS atoMS |}.
+Proof. exact static_after_stop. Qed.
+Print Assumptions C05_static_after_stop.
+
+Theorem C05_static_after_stop_eq : forall r loopMS c stop now1 now2 tsbdMS atoMS,
+  stop * 1000 < now1 -> stop * 1000 < now2 ->
+  liveMPDView r loopMS c (Some stop) now1 tsbdMS atoMS = liveMPDView r loopMS c (Some stop) now2 tsbdMS atoMS.
+Proof. exact static_after_stop_eq. Qed.
+Print Assumptions C05_static_after_stop_eq.
+
+Theorem C05_dynamic_until_stop : forall r loopMS c stop now tsbdMS atoMS,
+  (forall s, stop = Some s -> now <= s * 1000) ->
+  liveMPDView r loopMS c stop now tsbdMS atoMS
+  = {| v_static := false; v_durS := None;
+       v_publishMS := mpdPublishMS r loopMS c now tsbdMS atoMS;
+       v_content := mpdContent r loopMS c now tsbdMS atoMS |}.
+Proof. exact dynamic_until_stop. Qed.
+Print Assumptions C05_dynamic_until_stop.
+
+(** Non-vacuity of the content theorems: 4 x 2 s loop (d = 180000 ticks = 2000 ms), start 30 s,
+    tsbd 10 s = 5 segments, offset 0.5 s: at 99.5 s and 101.499 s the same content and publishTime,
+    at 101.5 s both change; stop at 100 s: static with duration 70 s, frozen at the stop instant. *)
+Example C05_content_example :
+  let r := ato_rep in let c := {| startS := 30; startNr := 7; tsbdS := 10; ato := Some 500 |} in
+  wf r 8000 /\ const_dur r 180000 /\ 180000 * 1000 = 2000 * ts r /\ 10000 = 5 * 2000 /\
+  map (fun now => (mpdPublishMS r 8000 c now 10000 500, mpdContent r 8000 c now 10000 500)) [99500; 101499; 101500]
+  = [(99500, (29, [{| e_t := 5220000; e_d := 180000; e_r := 5 |}]));
+     (99500, (29, [{| e_t := 5220000; e_d := 180000; e_r := 5 |}]));
+     (101500, (30, [{| e_t := 5400000; e_d := 180000; e_r := 5 |}]))] /\
+  liveMPDView r 8000 c (Some 100) 123456 10000 500
+  = {| v_static := true; v_durS := Some 70; v_publishMS := 99500;
+       v_content := (29, [{| e_t := 5220000; e_d := 180000; e_r := 5 |}]) |} /\
+  numberMPD r c 123456 = {| t_startNumber := 7; t_duration := 180000; t_timescale := 90000; t_publishMS := 30000 |}.
+Proof.
+  cbv zeta. split; [exact ato_rep_wf|]. split; [repeat constructor|]. vm_compute. repeat split; reflexivity.
+Qed.
 
 (** Non-vacuity: 4 x 2 s loop, start 30 s, tsbd 10 s, availabilityTimeOffset 0.5 s.  Segment 34 ends
     at 30 + 70 = 100 s and becomes available at 99.5 s: the last edge steps from 33 to 34 there,
